@@ -58,6 +58,10 @@ pub enum TextMut {
     Empty { i: usize },
     /// repeat the whole field list `times` times (long texts: 64 … several hundred fields)
     Repeat { times: usize },
+    /// append `n` two-byte characters to the content of occurrence i (byte offsets ≠ character offsets)
+    NonAscii { i: usize, n: usize },
+    /// give occurrence i a content of `n` short lines (texts with tens of thousands of LINES but few fields)
+    ManyLines { i: usize, n: usize },
 }
 
 #[derive(Serialize, Deserialize, Clone, Debug, PartialEq)]
@@ -223,6 +227,19 @@ fn apply_text_muts(occs: &mut Vec<Occ>, muts: &[TextMut], crlf: &mut bool) {
             TextMut::Pad { i } => occs[i % n].pad = true,
             TextMut::CrlfAt { i } => occs[i % n].crlf = true,
             TextMut::Empty { i } => occs[i % n].content.clear(),
+            TextMut::NonAscii { i, n } => {
+                let k = i % occs.len();
+                occs[k].content.push_str(&"é".repeat((*n).min(64)));
+            }
+            TextMut::ManyLines { i, n } => {
+                let k = i % occs.len();
+                let mut c = String::with_capacity(n * 2 + 8);
+                c.push_str("L0");
+                for _ in 0..(*n).min(80_000) {
+                    c.push_str("\nX");
+                }
+                occs[k].content = c;
+            }
             TextMut::Repeat { times } => {
                 let base = occs.clone();
                 for _ in 1..(*times).clamp(1, 16) {
@@ -896,6 +913,18 @@ impl Engine for C16 {
         // one run in twelve works on a long text
         if w.chance(1, 12) {
             text_muts.push(TextMut::Repeat { times: 3 + w.below(12) });
+        }
+        // one run in eight carries non-ASCII content (1 … 40 two-byte characters, sometimes in two fields)
+        if w.chance(1, 8) {
+            for _ in 0..1 + w.below(2) {
+                text_muts.push(TextMut::NonAscii { i: w.below(1000), n: 1 + w.below(40) });
+            }
+        }
+        // one run in fifty has more than 65 535 LINES: two long fields, so that fields lie before, between
+        // and after them (line numbers below, near and beyond the 16-bit limit)
+        if w.chance(1, 50) {
+            text_muts.push(TextMut::ManyLines { i: w.below(1000), n: 36_000 + w.below(24_000) });
+            text_muts.push(TextMut::ManyLines { i: w.below(1000), n: 30_000 + w.below(12_000) });
         }
         for _ in 0..n_muts {
             let (a, b) = (w.below(1000), w.below(1000));
